@@ -38,14 +38,22 @@ def traffic(rng, n, lat, lon, max_km=160):
         if rng.random() < 0.8:
             recs.append(enc.long_frame(17, 5, addr, enc.me_velocity(rng.randrange(2), rng.randrange(1, 700), rng.randrange(2), rng.randrange(1, 700), rng.randrange(2), rng.randrange(1, 200))))
         mode = rng.random()
+        # a climbing aircraft: the even and the odd report carry different altitudes
+        alt2 = alt + rng.choice([0, 0, 100, -225, 2000])
+        if k % 5 == 4:
+            # a TIS-B / ADS-R target whose first frame is of a type the tracker does not store
+            recs.insert(0, enc.long_frame(18, rng.randrange(8), addr, enc.me_unique(rng.choice([0, 23, 30]), rng.randrange(1 << 40))))
         if mode < 0.75:
             recs.append(enc.long_frame(17, 5, addr, enc.me_airpos(11, alt, la, lo, False)))
-            recs.append(enc.long_frame(17, 5, addr, enc.me_airpos(11, alt, la, lo, True)))
+            recs.append(enc.long_frame(17, 5, addr, enc.me_airpos(11, alt2, la, lo, True)))
         elif mode < 0.9:
             recs.append(enc.long_frame(17, 5, addr, enc.me_airpos(11, alt, la, lo, rng.random() < 0.5)))  # one parity only: blank position
         for _ in range(rng.randrange(0, 4)):
             recs.append(enc.long_frame(17, 5, addr, enc.me_unique(0, rng.randrange(1 << 40))))
+        first = recs.pop(0) if k % 5 == 4 else None
         rng.shuffle(recs)
+        if first is not None:
+            recs.insert(0, first)
         # keep even before odd order irrelevant; the library decides what a pair means
         lines += [enc.line(r) for r in recs]
     return lines
